@@ -15,7 +15,9 @@ BUDGET_S = {"quick": 45, "thorough": 650}
 RULE = (
     "Hypothesis draws a content (segments: pool blocks, random bytes, token text with LF/CRLF/bare CR/"
     "NUL/high bytes, fillers that put the content length or a NUL/CR/LF at 510-513, 1023-1025 and "
-    "2^20-1..2^20+1, windows with 148-158 non-text bytes around the 30% sniffing threshold), an "
+    "2^20-1..2^20+1, windows with 148-158 non-text bytes around the 30% sniffing threshold; for md5-dos2unix "
+    "through file_md5/hash_file also 64 KiB..1.2 MiB files with CR LF planted across k*2^n (n=9..20), a binary "
+    "head before CRLF text, or a text head before a NUL/high-byte region holding a CRLF), an "
     "algorithm spelling (md5 sha1 sha224 sha256 sha512 sha3_256 blake2b blake2s blake3 md5-dos2unix; "
     "lower/upper/mixed case), an entry point (HashStreamFile / Dos2UnixHashStreamFile constructors, "
     "get_hash_stream, fobj_md5 with a drawn chunk size, file_md5 and hash_file on a real file and on a "
@@ -29,7 +31,8 @@ RULE = (
     "independent re-implementation of the sniffing rule says text, md5(content) otherwise, judged when "
     "the content fits in the first read (and, for several reads, only when the answer does not depend on "
     "per-read sniffing: no CRLF at all, every read binary, or pure text with no CRLF across a read "
-    "boundary); CRLF and LF variants of one text that fit one read get the same digest. "
+    "boundary); CRLF and LF variants of one text that fit one read get the same digest; file_md5(), "
+    "file_md5(callback), hash_file(info=None) and hash_file(info=fs.info) of one file agree. "
     "Non-trivial = >=2 bytes and (>=2 non-empty reads, or legacy with a CRLF, or a file-based entry "
     "point, or a non-lower-case algorithm spelling); distinct = SHA-1 of the case JSON."
 )
@@ -94,7 +97,9 @@ TOKENS = [b"a", b"line", b" ", b"\n", b"\r\n", b"\r", b"\t", b"\x00", b"\xc3\xa9
           b"\x08", b"\x7f", b"\x1b", b"\n\r", b"\r\r\n", b"word "]
 TEXT_TOKENS = [b"a", b"line", b" ", b"\n", b"\r\n", b"\r", b"\t", b"\x0c", b"word ", b"\r\r\n", b"\n\r"]
 BLOCKS = [b"q", b"\xc8", b"ab\r\n", b"qqqqqqqqq\n", b"qqqqqqq\r\n\t", b"\xc8\xc9qqqqqqqq", b"\xc8\xc9\xcaqqqqqqq",
-          b"\xc8\xc9\xca\xcbqqqqqq", b"\xc8\xc9\xcaqqqqq\r\n", b"\r", b"\n", b"\r\n", b"\x00"]
+          b"\xc8\xc9\xca\xcbqqqqqq", b"\xc8\xc9\xcaqqqqq\r\n", b"\r", b"\n", b"\r\n", b"\x00",
+          # 7-bit control bytes (non-text, but ASCII and NUL-free): 30 %, 40 %, 50 %
+          b"\x01\x02\x03qqqqq\r\n", b"\x01\x1b\x7f\x02qqqq\r\n", b"\x1b\x01\r\n", b"\x7f"]
 EDGE_LEN = [1, 2, 9, 10, 20, 100, 510, 511, 512, 513, 514, 1022, 1023, 1024, 1025, 1536, 4096, 65536]
 BIG_LEN = [MIB - 2, MIB - 1, MIB, MIB + 1, MIB + 2, MIB + 511, MIB + 512, 2 * MIB, 2 * MIB + 1]
 
@@ -117,7 +122,7 @@ def _filler(total, block):
 def content_segs(draw, big_ok=True, text_only=False):
     toks = TEXT_TOKENS if text_only else TOKENS
     blocks = [b for b in BLOCKS if all(c in TEXT_CHARS for c in b)] if text_only else BLOCKS
-    shape = draw(st.sampled_from(["pool", "rnd", "text", "edge", "edge", "edge", "window", "big"]))
+    shape = draw(st.sampled_from(["pool", "rnd", "text", "edge", "edge", "edge", "window", "big", "exact30"]))
     segs = []
     if shape == "pool" and not text_only:
         segs.append("p:" + draw(st.sampled_from(sorted(gen.POOL))))
@@ -130,16 +135,67 @@ def content_segs(draw, big_ok=True, text_only=False):
     elif shape == "window" and not text_only:
         k = draw(st.integers(148, 158))
         w = draw(st.sampled_from([511, 512, 513, 520]))
+        nt = draw(st.sampled_from(["c8", "c8", "01", "1b", "7f"]))  # high byte or 7-bit control byte
         if draw(st.booleans()):
-            segs += [f"r:{k}:c8", f"r:{w - k}:61"]
+            segs += [f"r:{k}:{nt}", f"r:{w - k}:61"]
         else:
-            segs += [f"r:{w - k}:61", f"r:{k}:c8"]
+            segs += [f"r:{w - k}:61", f"r:{k}:{nt}"]
+    elif shape == "exact30" and not text_only:
+        # exactly 30 % non-text bytes in a window shorter than 512 (the rule says "more than 30 %" is binary)
+        blk = draw(st.sampled_from([b"\xc8\xc9\xcaqqqqq\r\n", b"q\r\n\xc8q\xc9qq\xcaq", b"\xc8\xc9\xca\r\nqqqqq",
+                                    b"\x01\x02\x1bqqqqq\r\n"]))
+        segs.append(f"r:{draw(st.integers(1, 51))}:{blk.hex()}")
+        return segs
     elif shape == "big" and big_ok:
         segs += _filler(draw(st.sampled_from(BIG_LEN)), draw(st.sampled_from(blocks)))
     else:
         segs += _filler(draw(st.sampled_from(EDGE_LEN)), draw(st.sampled_from(blocks)))
     for _ in range(draw(st.integers(0, 3))):
         segs.append(_h(b"".join(draw(st.lists(st.sampled_from(toks), min_size=1, max_size=6)))))
+    return segs
+
+
+POW_K = [1, 2, 3, 4, 8, 16, 32, 64, 128, 256, 512, 1024, 2048]
+MID_BLOCKS = [b"q", b"qqqqqqqqq\n", b"word ", b"ab\r\n", b"line of text\r\n", b"0123456789abcde\n"]
+MID_SIZES = [65537, 70000, 2**17 + 5, 200000, 2**18, 2**19 + 3, 786432, 1000000, MIB - 1, MIB, MIB + 70000,
+             1200000]
+
+
+@st.composite
+def mid_segs(draw):
+    """Contents between 64 KiB and ~1.2 MiB, cheap by construction (a small block repeated), with CR LF pairs
+    planted so that the CR is the last byte before k*2^n (n in 9..20: every power-of-two read size a reader
+    might pick), or with a binary 512-byte head before CRLF text, or a text head before a NUL/high-byte region
+    (starting on a 2^n boundary) that holds a CRLF."""
+    shape = draw(st.sampled_from(["straddle", "straddle", "bin-head", "text-then-bin"]))
+    total = draw(st.one_of(st.sampled_from(MID_SIZES), st.integers(65537, MIB)))
+    block = draw(st.sampled_from(MID_BLOCKS))
+    unit = 2 ** draw(st.integers(9, 20))
+    kmax = max(1, (total - 2) // unit)
+    ks = draw(st.lists(st.one_of(st.integers(1, kmax), st.sampled_from(POW_K)), min_size=1, max_size=3))
+    segs = []
+    cur = 0
+    if shape == "bin-head":
+        head = draw(st.sampled_from([b"\x00", b"BM\x00\x00", b"\xc8" * 200]))
+        segs.append(_h(head))
+        cur = len(head)
+        if b"\r\n" not in block:
+            block = b"line of text\r\n"
+    for p in sorted({k * unit for k in ks}):
+        if p - 1 < cur or p + 1 >= total:
+            continue
+        segs += _filler(p - 1 - cur, block)
+        if shape == "text-then-bin":
+            # CR | region of NULs or high bytes starting on the boundary, with a CRLF inside
+            fill = draw(st.sampled_from(["00", "c8"]))
+            n = draw(st.sampled_from([600, 4096, 70000]))
+            segs += ["h:71", f"r:{n}:{fill}", "h:0d0a", f"r:{n}:{fill}"]
+            cur = p + 2 * n + 2
+        else:
+            segs.append("h:0d0a")
+            cur = p + 1
+    if cur < total:
+        segs += _filler(total - cur, block)
     return segs
 
 
@@ -209,6 +265,8 @@ def cases(draw):
         case["crlf_at"] = draw(st.lists(st.integers(0, 400), min_size=1, max_size=8))
         case["peeks"] = draw(PEEKS)
         case["content"] = draw(content_segs(big_ok=False, text_only=draw(st.sampled_from([True, True, False]))))
+    if "content" not in case and legacy and entry in ("file", "hash_file") and draw(st.integers(0, 2)) > 0:
+        case["content"] = draw(mid_segs())
     if "content" not in case:
         case["content"] = draw(content_segs(text_only=legacy and draw(st.booleans())))
     case["algo"] = spell(base, mask)
@@ -502,10 +560,28 @@ def run_case(case, ctx):
                 if hi.name != algo:
                     viols.append(Viol("hash_file-name", f"hash_file returned name {hi.name!r} for {algo!r}"))
                 check_digest(hi.value, content, base, chunks, viols, classes, "hash_file")
+            # call-form independence: the digest of one file under one algorithm does not depend on how it is asked for
+            from fsspec.callbacks import Callback
+
+            forms = {
+                "file_md5()": file_md5(path, fs, name=algo),
+                "file_md5(callback=...)": file_md5(path, fs, name=algo, callback=Callback()),
+                "hash_file(info=None)": hash_file(path, fs, base)[1].value,
+                "hash_file(info=fs.info)": hash_file(path, fs, base, info=fs.info(path))[1].value,
+            }
+            if len(set(forms.values())) > 1:
+                viols.append(Viol("call-form-dependent", f"{base} digest of one {len(content)}-byte file depends on the "
+                                                         f"call form: {forms}"))
             with fs.open(path, "rb") as f:
                 if f.read() != content:
                     viols.append(Viol("source-altered", "hashing changed the file"))
         nreads = len(chunks)
+        if legacy and 65536 < len(content) <= MIB:
+            classes.append("legacy-file-64KiB..1MiB")
+            if any(content[k - 1:k + 1] == b"\r\n" for k in range(65536, len(content), 65536)):
+                classes.append("legacy-file-crlf-across-64KiB-multiple")
+            if ref.ref_istext(content) != ref.ref_istext(content[65536:]):
+                classes.append("legacy-file-head-vs-later-chunk-differ")
     elif entry == "pair":
         lf = content
         if not any(b == 10 and (i == 0 or content[i - 1] != 13) for i, b in enumerate(content)):
@@ -591,7 +667,7 @@ def run(ctx):
             from . import c14_booster
 
             c14_booster.run(ctx)
-    ctx.run_given(cases(), run_case, ctx.n(quick=2000, thorough=90000))
+    ctx.run_given(cases(), run_case, ctx.n(quick=2000, thorough=40000))
 
 
 def replay(case, ctx):
